@@ -78,8 +78,8 @@ type sockPeer struct {
 	raw     *net.TCPConn
 	rw      net.Conn // raw, or the TLS connection over it
 	policy  string
-	wmu     sync.Mutex  // one message at a time on the way out
-	silent  atomic.Bool // watchdog requests are not answered
+	wmu     sync.Mutex    // one message at a time on the way out
+	silent  atomic.Bool   // watchdog requests are not answered
 	sawEnd  chan struct{} // closed when the peer's read loop saw the end of the library's stream (or an error)
 	done    chan struct{} // closed when the read loop has returned
 	release chan struct{} // closed at the end of the case: whatever is still open is closed now
@@ -192,7 +192,7 @@ func (p *sockPeer) finish() {
 }
 
 func runSock(c SockCase) *ev.Failure {
-	if pre := leaked(2 * time.Second); pre != "" {
+	if pre := leakedIn(2 * time.Second); pre != "" {
 		return ev.Failf("goroutine-leak-after-earlier-case", "a goroutine the library started for a connection of an EARLIER case is still alive (that connection had terminated):\n%s", pre)
 	}
 	useTLS := c.Transport == "tls"
@@ -352,7 +352,7 @@ func runSock(c SockCase) *ev.Failure {
 			return ev.Failf("harness-peer", "the peer could not send message %d: %v", sent, err)
 		}
 		sent++
-		if !h.waitHandled(sent, 2*promptly) {
+		if !h.handledIn(sent, 2*promptly) {
 			return ev.Failf("message-not-dispatched", "%s: message %d of the peer did not reach the handler within %v", desc, sent-1, 2*promptly)
 		}
 	}
@@ -387,9 +387,7 @@ func runSock(c SockCase) *ev.Failure {
 	case "local-close":
 		closed := make(chan struct{})
 		go func() { dc.Close(); close(closed) }()
-		select {
-		case <-closed:
-		case <-time.After(2 * promptly):
+		if !closedIn(closed, 2*promptly) {
 			return ev.Failf("local-close-blocked", "%s: Close() did not return within %v", desc, 2*promptly)
 		}
 	case "peer-close":
@@ -406,16 +404,14 @@ func runSock(c SockCase) *ev.Failure {
 	}
 	// the connection has terminated (or does so as soon as the library reads what the peer did)
 	for i, ch := range chans {
-		if !closedWithin(ch, 2*promptly) {
+		if !closedIn(ch, 2*promptly) {
 			return ev.Failf("never-fired", "%s: CloseNotify channel %d (of %d, requested before the termination) was not closed within %v", desc, i, len(chans), 2*promptly)
 		}
 	}
 	if c.Term == "peer-half-close" || c.Term == "garbage" || c.Term == "watchdog-gives-up" {
 		// the peer still reads: it sees the library close its side of the terminated connection
 		// (and the requests below are made after the library noticed the termination)
-		select {
-		case <-peer.sawEnd:
-		case <-time.After(2 * promptly):
+		if !closedIn(peer.sawEnd, 2*promptly) {
 			return ev.Failf("transport-not-closed", "%s: %v later the library has not closed its side of the connection", desc, 2*promptly)
 		}
 	}
@@ -424,7 +420,7 @@ func runSock(c SockCase) *ev.Failure {
 		if bf != nil {
 			return bf
 		}
-		if !closedWithin(late, 2*promptly) {
+		if !closedIn(late, 2*promptly) {
 			return ev.Failf("late-request-never-fired", "%s: a CloseNotify channel requested after the termination was not closed within %v", desc, 2*promptly)
 		}
 	}
@@ -439,7 +435,7 @@ func runSock(c SockCase) *ev.Failure {
 			return ev.Failf("messages-lost-or-duplicated", "%s: messages must be dispatched once each in order 0..%d, the handler saw %v", desc, sent-1, seqs)
 		}
 	}
-	if g := leaked(promptly); g != "" {
+	if g := leakedIn(promptly); g != "" {
 		return ev.Failf("goroutine-leak", "%s: %v after the termination a goroutine the library started for the connection is still alive:\n%s", desc, promptly, g)
 	}
 	return nil
